@@ -492,6 +492,13 @@ func (c *Ctx) ruleReadShape() {
 			c.judgeFresh(fn, "the returned value buffer is the parser's freshly constructed buffer", "a return hands out a buffer that does not come from the parser's fresh result")
 		}
 	}
+	c.ruleArgMapping()
+}
+
+// ruleArgMapping (F8): the variable definition's name, attributes and GUID reach
+// the filesystem layer unchanged, each in its own parameter, on both the write
+// and the read side.
+func (c *Ctx) ruleArgMapping() {
 	// ---- F8: argument mapping in WriteVar
 	if fn := c.Fn("F8.args", "efivarfs.(*EFIFS).WriteVar"); fn != nil {
 		fname := name(fn)
@@ -512,7 +519,10 @@ func (c *Ctx) ruleReadShape() {
 				field string
 			}{{1, "Name"}, {2, "Attributes"}, {4, "GUID"}}
 			for _, w := range want {
-				sl := c.Slicer().Slice(args[w.idx])
+				// with control dependence: a helper that picks the value by looking at another field
+				slr := c.Slicer()
+				slr.Control = true
+				sl := slr.Slice(args[w.idx])
 				if !sl[vP] || !ir.HasField(sl, M+"/efivar.Efivar."+w.field) {
 					bad = append(bad, fmt.Sprintf("argument %d does not derive from v.%s", w.idx, w.field))
 				}
@@ -545,6 +555,37 @@ func (c *Ctx) ruleReadShape() {
 				bad = append(bad, "value bytes do not come from e.Marshal")
 			}
 			c.R.Check(len(bad) == 0, "F8.args", fname, "WriteEfivarsWithGuid.args", c.IPos(target), "WriteVar passes (v.Name, v.Attributes, marshalled value, *v.GUID) to the matching parameters", strings.Join(bad, "; "))
+		}
+	}
+	// the read side: the file looked up is named by (v.Name, *v.GUID) of the same definition
+	if fn := c.Fn("F8.args", "efivarfs.(*EFIFS).GetVarWithAttributes"); fn != nil {
+		dv := c.deepViewOf(fn, 2)
+		calls := dv.callsTo(M + "/efivarfs/fswrapper.FSWrapper.ReadEfivarsWithGuid")
+		if len(calls) != 1 {
+			c.R.Undecf("F8.args", name(fn), "ReadEfivarsWithGuid", c.Pos(fn.Pos()), "the variable read forwards to the filesystem reader", fmt.Sprintf("%d calls found", len(calls)))
+		} else {
+			target := calls[0].i.(*ssa.Call)
+			f := calls[0].fr.fn
+			vP := paramByNamed(f, M+"/efivar.Efivar")
+			var bad []string
+			want := []struct {
+				idx   int
+				field string
+			}{{1, "Name"}, {2, "GUID"}}
+			for _, w := range want {
+				slr := c.Slicer()
+				slr.Control = true
+				sl := slr.Slice(target.Call.Args[w.idx])
+				if vP == nil || !sl[vP] || !ir.HasField(sl, M+"/efivar.Efivar."+w.field) {
+					bad = append(bad, fmt.Sprintf("argument %d does not derive from v.%s", w.idx, w.field))
+				}
+				for _, o := range []string{"Name", "GUID", "Attributes"} {
+					if o != w.field && ir.HasField(sl, M+"/efivar.Efivar."+o) {
+						bad = append(bad, fmt.Sprintf("argument %d also derives from v.%s", w.idx, o))
+					}
+				}
+			}
+			c.R.Check(len(bad) == 0, "F8.args", name(fn), "ReadEfivarsWithGuid.args", c.IPos(target), "the read looks up (v.Name, *v.GUID) of the variable definition", strings.Join(bad, "; "))
 		}
 	}
 }
